@@ -1074,8 +1074,14 @@ func (fc *fnCtx) execAppend(st *State, x *ssa.Call) {
 	elemNew := func(i string) string {
 		return fmt.Sprintf("(select (select %s %s) (sl.ix %s %s))", h2, resBase, res.T, i)
 	}
-	fc.assume(st, fmt.Sprintf("(forall ((j Int)) (! (=> (and (<= 0 j) (< j %s)) (= %s (select (select %s (sl.base %s)) (sl.ix %s j)))) :pattern ((sl.ix %s j))))",
-		oldLen, elemNew("j"), h, s.T, s.T, res.T))
+	// two alternative triggers: a term about the new slice, or about the old one (an existential
+	// witness known for the old slice must be found for the new one)
+	oldPat := ""
+	if isAtom(s.T) {
+		oldPat = fmt.Sprintf(" :pattern ((sl.ix %s j))", s.T)
+	}
+	fc.assume(st, fmt.Sprintf("(forall ((j Int)) (! (=> (and (<= 0 j) (< j %s)) (= %s (select (select %s (sl.base %s)) (sl.ix %s j)))) :pattern ((sl.ix %s j))%s))",
+		oldLen, elemNew("j"), h, s.T, s.T, res.T, oldPat))
 	if isVar && k <= 8 {
 		for i := int64(0); i < k; i++ {
 			fc.assume(st, eq(elemNew(fmt.Sprintf("(+ %s %d)", oldLen, i)), tAt(fmt.Sprintf("%d", i))))
